@@ -611,11 +611,19 @@ def run(tier_name=None, replay=None):
         o["id"] = len(obs) + 1
         obs.append(o)
     done = {}
+    unreachable = []
     for r, fut in hist_futures:
         try:
             done[json.dumps(r, sort_keys=True)] = fut.result(timeout=1200)
         except Exception as ex:
-            harness.append("history case %s: %s" % (json.dumps(r), ex))
+            if "no loop machine has a history of" in str(ex):
+                # the lengths the calibration machines can reach depend on what the code logs: an unreachable target is
+                # skipped (and counted), as long as some targets on both sides of the limit are reached
+                unreachable.append(r["natural"])
+            else:
+                harness.append("history case %s: %s" % (json.dumps(r), ex))
+    if unreachable and not (any(o["natural"] > L_HIST and o.get("failed") for o in done.values()) and any(o["natural"] <= L_HIST for o in done.values())):
+        harness.append("history quota: no loop machine reaches the lengths %s and the limit is not bracketed by the others" % unreachable)
     pool.shutdown()
     for r in HR:
         o = done.get(json.dumps(r, sort_keys=True))
@@ -671,6 +679,8 @@ def run(tier_name=None, replay=None):
         "tlc_cpu_s": stats["tlc_cpu_s"],
         "laws_model_checked": "MC_Quota (L_DATA=4, L_DEF=6, L_NAME=3, L_HIST=5): points agree, size <= L, boundary, monotone, empty, "
                               "two readings, documented errors, shift to the real limits, history over %d (point, size, size) triples" % lawstats["law_states"]}
+    if unreachable:
+        v.coverage["history_targets_not_reachable_by_the_calibration_machines"] = unreachable
     if laws.get("proofs"):
         v.coverage["tlaps_proofs_of_the_boundary_laws_for_all_limits"] = laws["proofs"]
     v.assumptions = ["the size of a value the engine serialises itself is the length of its json.dumps text; where the most compact JSON text of the same value "
